@@ -48,7 +48,11 @@ Unique(prefix, taken) ==
     Numbered(prefix, CHOOSE k \in 0..Cardinality(taken) :
                          /\ Numbered(prefix, k) \notin taken
                          /\ \A j \in 0..(k - 1) : Numbered(prefix, j) \in taken)
-Shorten(s, no) == <<99>> \o Pad5(no) \o <<95>> \o Take(s, 7) \o <<46, 46>>     (* c00001_abcdefg.. *)
+(* c00001_abcdefg..  As implemented the id part is always 7 characters, so a contig number of
+   more than five digits makes the result longer than 16; the repaired form shortens the id part *)
+Shorten(s, no, repaired) ==
+    LET prefix == <<99>> \o Pad5(no) \o <<95>>
+    IN  prefix \o Take(s, IF repaired /\ Len(prefix) > 7 THEN (IF Len(prefix) > 14 THEN 0 ELSE 14 - Len(prefix)) ELSE 7) \o <<46, 46>>
 Dots(s) == Cardinality({k \in DOMAIN s : s[k] = 46})
 IsVersioned(s) == Len(s) >= 2 /\ s[Len(s) - 1] = 46 /\ Dots(s) = 1          (* accession.1 *)
 Accession(s) == SubSeq(s, 1, Len(s) - 2)
@@ -73,10 +77,10 @@ FixOne(r, idx, taken, allowLong, repaired) ==
         versioned == IsVersioned(r.id) /\ Len(Accession(r.id)) <= MaxLen /\ Accession(r.id) \notin taken
         id1 == IF ~long THEN r.id
                ELSE IF versioned THEN Accession(r.id)
-               ELSE IF Shorten(r.id, no) \notin taken THEN Shorten(r.id, no)
+               ELSE IF Shorten(r.id, no, repaired) \notin taken THEN Shorten(r.id, no, repaired)
                ELSE Unique(Take(r.id, 12), taken)
         taken1 == IF long THEN taken \cup {id1} ELSE taken
-        name1 == IF Len(r.name) > MaxLen /\ ~allowLong THEN Shorten(r.name, no) ELSE r.name
+        name1 == IF Len(r.name) > MaxLen /\ ~allowLong THEN Shorten(r.name, no, repaired) ELSE r.name
         id2 == Strip(id1)
         clash == repaired /\ id2 # id1 /\ id2 \in taken1
         id3 == IF ~clash THEN id2
@@ -109,13 +113,14 @@ UniqueFailed(prefix, existing, maxlen, r) ==
 (* fix_record_name_id(record, taken, allowLong): the record alone *)
 FixFailed(in, taken, allowLong, out, takenAfter) ==
     (IdsFailed(<<in>>, <<out>>, allowLong) \ {"id_not_empty"})
-    \cup (IF out.id = in.id \/ out.id \notin taken THEN {} ELSE {"new_id_not_already_taken"})
+    \cup (IF out.id = in.id \/ out.id = <<>> \/ out.id \notin taken THEN {} ELSE {"new_id_not_already_taken"})
     \cup (IF taken \subseteq takenAfter /\ (out.id = in.id \/ out.id \in takenAfter) THEN {} ELSE {"new_id_entered_as_taken"})
 
 (* --- gene identifiers ----------------------------------------------------------- *)
 (* a gene is [tag, pid, gene, loc]: identifiers (<<>> = absent) and an opaque location key *)
 SanGene(s) == [k \in DOMAIN s |-> IF s[k] \in GeneIllegal THEN 95 ELSE s[k]]
-GeneName(g) == SanGene(IF g.tag # <<>> THEN g.tag ELSE IF g.pid # <<>> THEN g.pid ELSE g.gene)
+(* the name a gene is mapped by: locus tag, else gene name, else protein id *)
+GeneName(g) == SanGene(IF g.tag # <<>> THEN g.tag ELSE IF g.gene # <<>> THEN g.gene ELSE g.pid)
 (* accepted: names are the genes' names, pairwise distinct, and each name finds its own gene;
    rejected while adding gene k: only if k collides (name or location) with an earlier gene *)
 GenesAcceptedFailed(genes, names, found) ==
